@@ -209,7 +209,22 @@ WireSubset(w1, w2) == \A k \in WireKeys : w1[k] \subseteq w2[k]
 (* ------------------------------------------------------------------ *)
 Init == SInit /\ con = IF EmitLeavesOnly THEN EmptyC ELSE Contract(bundle)
 \* with EmitLeavesOnly (simulation, where TLC evaluates every candidate successor) the contract is only computed at the leaves
-Next == SNext /\ con' = IF EmitLeavesOnly /\ steps' < MaxSteps THEN EmptyC ELSE Contract(bundle')
+ConUpd == con' = IF EmitLeavesOnly /\ steps' < MaxSteps THEN EmptyC ELSE Contract(bundle')
+CAddField == AddField /\ ConUpd
+CAddOption == AddOption /\ ConUpd
+CAddObject == AddObject /\ ConUpd
+CAddOneof == AddOneof /\ ConUpd
+CAddEnum == AddEnum /\ ConUpd
+CAddService == AddService /\ ConUpd
+CAddTopic == AddTopic /\ ConUpd
+CNest == Nest /\ ConUpd
+CAddMethod == AddMethod /\ ConUpd
+CAddMessage == AddMessage /\ ConUpd
+CAddImport == AddImport /\ ConUpd
+CAddFile == AddFile /\ ConUpd
+CAddPackage == AddPackage /\ ConUpd
+Next == \/ CAddField \/ CAddOption \/ CAddObject \/ CAddOneof \/ CAddEnum \/ CAddService \/ CAddTopic \/ CNest
+        \/ CAddMethod \/ CAddMessage \/ CAddImport \/ CAddFile \/ CAddPackage
 Spec == Init /\ [][Next]_vars
 
 (* ------------------------------------------------------------------ *)
